@@ -212,9 +212,10 @@ class Tracebacks(Part):
     chunk = 60
 
     def strategy(self, tier):
-        return st.builds(lambda lead, filler, depth, pos, nl, tabs, wide, wrap, pb, rec: {"lead": lead, "filler": filler, "depth": depth, "pos": pos, "final_newline": nl, "tabs": tabs, "wide": wide, "wrap": wrap, "pagebreaks": pb, "recursive": rec},
+        return st.builds(lambda lead, filler, depth, pos, nl, tabs, wide, wrap, pb, rec, enc, rel: {"lead": lead, "filler": filler, "depth": depth, "pos": pos, "final_newline": nl, "tabs": tabs, "wide": wide, "wrap": wrap, "pagebreaks": pb, "recursive": rec,
+                                                                                              "encoding": enc, "relative": rel},
                          st.integers(0, 4), st.integers(0, 6), st.integers(1, 3), st.sampled_from(["first", "middle", "last"]), st.booleans(), st.booleans(), st.booleans(),
-                         st.sampled_from(["none", "none", "finally", "with"]), st.sampled_from([0, 0, 1, 4, 6]), st.sampled_from([0, 0, 1, 3]))
+                         st.sampled_from(["none", "none", "finally", "with"]), st.sampled_from([0, 0, 1, 4, 6]), st.sampled_from([0, 0, 1, 3]), st.sampled_from(["utf-8", "utf-8", "latin-1"]), st.sampled_from([False, False, True]))
 
     def check(self, spec, ctx):
         from rich.console import Console
@@ -235,6 +236,10 @@ class Tracebacks(Part):
                 ctx.cls("form-feeds-above")
             if spec.get("recursive"):
                 ctx.cls("same-function-at-several-lines")
+            if spec.get("encoding") == "latin-1":
+                ctx.cls("latin-1-source")
+            if spec.get("relative"):
+                ctx.cls("relative-file-name-after-chdir")
         finally:
             shutil.rmtree(d, ignore_errors=True)
             linecache.clearcache()
@@ -244,8 +249,10 @@ class Tracebacks(Part):
         from rich.traceback import Traceback
 
         ind = "\t" if spec["tabs"] else "    "
-        lines = [""] * spec["lead"] + ["\x0c", "# section", ""] * spec.get("pagebreaks", 0)   # form feeds: the page breaks of GNU-style sources
-        msg = "漢字 boom" if spec["wide"] else "boom"
+        enc = spec.get("encoding", "utf-8")
+        head = ["# -*- coding: latin-1 -*-", "# caf\u00e9 na\u00efve"] if enc == "latin-1" else []   # a readable source file that is not UTF-8
+        lines = head + [""] * spec["lead"] + ["\x0c", "# section", ""] * spec.get("pagebreaks", 0)   # form feeds: the page breaks of GNU-style sources
+        msg = "漢字 boom" if (spec["wide"] and enc == "utf-8") else "boom"
         body = []
         for dd in range(spec["depth"]):
             name = "f%d" % dd
@@ -282,14 +289,27 @@ class Tracebacks(Part):
         text = "\n".join(lines) + ("\n" if spec["final_newline"] else "")
         path = os.path.join(d, "genmod.py")
         if True:
-            with open(path, "w", encoding="utf-8") as f:
+            with open(path, "w", encoding=enc) as f:
                 f.write(text)
             linecache.checkcache(path)
-            specm = importlib.util.spec_from_file_location("vp_c17_genmod_%d" % vi, path)
-            mod = importlib.util.module_from_spec(specm)
-            specm.loader.exec_module(mod)
+            relative = bool(spec.get("relative"))
+            if relative:
+                # the code object carries a relative file name (compile(src, "tool.py"), runpy): it is relative to where the program started, not to where it is now
+                import rich
+
+                code_name = os.path.relpath(path, rich._IMPORT_CWD)
+                shown_path = os.path.join(rich._IMPORT_CWD, code_name)
+                glob = {}
+                exec(compile(text, code_name, "exec"), glob)
+                f0 = glob["f0"]
+            else:
+                code_name = shown_path = path
+                specm = importlib.util.spec_from_file_location("vp_c17_genmod_%d" % vi, path)
+                mod = importlib.util.module_from_spec(specm)
+                specm.loader.exec_module(mod)
+                f0 = mod.f0
             try:
-                mod.f0(1)
+                f0(1)
             except ValueError:
                 et, ev, tb = sys.exc_info()
             else:
@@ -297,10 +317,16 @@ class Tracebacks(Part):
             frames = []
             t = tb
             while t is not None:
-                if t.tb_frame.f_code.co_filename == path:
+                if t.tb_frame.f_code.co_filename == code_name:
                     frames.append((t.tb_lineno, t.tb_frame.f_code.co_name))
                 t = t.tb_next
-            trace = sut(Traceback.from_exception, et, ev, tb, width=120)
+            old_cwd = os.getcwd()
+            if relative:
+                os.chdir(d)   # the program changed directory after it started
+            try:
+                trace = sut(Traceback.from_exception, et, ev, tb, width=120)
+            finally:
+                os.chdir(old_cwd)
             f = io.StringIO()
             con = sut(Console, file=f, width=120, color_system=None, legacy_windows=False, _environ={})
             sut(con.print, trace)
@@ -308,7 +334,7 @@ class Tracebacks(Part):
             src_lines = text.split("\n")
             blocks = re.split(r"(?m)^│ (?=\S+:\d+ in )", out)
             for lineno, name in frames:
-                header = "%s:%d in %s" % (path, lineno, name)
+                header = "%s:%d in %s" % (shown_path, lineno, name)
                 blk = [b for b in blocks if b.startswith(header)]
                 if not blk:
                     ctx.violation("traceback", "C17/traceback/no-frame", "no frame header %r in\n%s" % (header, out))
